@@ -23,7 +23,7 @@ MODES_Q = ['NQ', 'SRQ8a', 'SRQ16', 'SRQ8w4', 'DRQ8c', 'DRQ8t', 'DRQ4c', 'WO8c',
 
 
 def mk(t, v, **kw):
-  ar = dict(irm.VARIANTS[t])[v]
+  ar = irm.arity(t, v)
   return irm.op(t, v, [0] * ar, **kw)
 
 
